@@ -84,7 +84,7 @@ TABLE = {
        "and wrong-type rejection, Destination and IssueInstant gates, and "
        "accept=>verified with only_valid_cert unconstrained. Two genuine "
        "violations are recorded as known findings. Garbled encodings and "
-       "xmlsec1 are not decided. Request._loads hands signature_check exactly the caller's must/only_valid_cert/origdoc on every path (origins, not text). R10: no misplaced positional argument in the request-parsing modules; the reference-URI guard of the shared verifier (C01.R3) is part of R7.",
+       "xmlsec1 are not decided. Request._loads hands signature_check exactly the caller's must/only_valid_cert/origdoc on every path (origins, not text). R10: no misplaced positional argument in the request-parsing modules; the reference-URI guard of the shared verifier (C01.R3) is part of R7. R11 (= C01.R5): a signature present on a request is checked on every accepting path of correctly_signed_message; nothing remembered from an earlier message stands in for the check.",
   ref="Part 3 C10"),
 }
 
